@@ -156,6 +156,10 @@ impl Operation {
         self.operationId = Some(operationId);
         self
     }
+    #[doc(hidden)]
+    pub fn get_operationId(&self) -> Option<&'static str> {
+        self.operationId
+    }
     pub fn with_tag(mut self, tag: &'static str) -> Self {
         self.tags.push(tag);
         self
